@@ -7,6 +7,7 @@ import (
 	"go/types"
 	"log"
 	"sort"
+	"strings"
 
 	"github.com/goghcrow/go-ast-matcher"
 	"github.com/goghcrow/go-imports"
@@ -186,8 +187,9 @@ func (r *rewriter) rewriteFile(f *loader.File, printer FilePrinter) {
 	log.Printf("write file: %s\n", f.Filename)
 	// clear free-floating comments, preventing confusing position of comments
 	// https://github.com/golang/go/issues/20744
-	f.File.Comments = r.comments
-	if len(r.comments) > 0 {
+	directives := floatingDirectives(f.File)
+	f.File.Comments = append(r.comments, directives...)
+	if len(f.File.Comments) > 0 {
 		// with an explicit comment list the printer ignores the comments that
 		// hang on nodes: keep the doc comments (they can be directives such as
 		// //go:embed or //go:noinline) and the attached sources of generator decls
@@ -197,6 +199,35 @@ func (r *rewriter) rewriteFile(f *loader.File, printer FilePrinter) {
 		})
 	}
 	printer(f.Filename, f)
+}
+
+// floatingDirectives collects the free-floating comment groups between the
+// declarations of a file that carry a //go: directive: a //go:embed line may be
+// separated from its variable by blank lines or other comments, and without it
+// the variable stays empty.
+func floatingDirectives(file *ast.File) (groups []*ast.CommentGroup) {
+	attached := map[*ast.CommentGroup]bool{}
+	for _, g := range nodeComments(file) {
+		attached[g] = true
+	}
+next:
+	for _, g := range file.Comments {
+		if attached[g] || g.Pos() < file.Name.End() {
+			continue
+		}
+		for _, d := range file.Decls {
+			if d.Pos() <= g.Pos() && g.Pos() < d.End() {
+				continue next // inside a declaration
+			}
+		}
+		for _, c := range g.List {
+			if strings.HasPrefix(c.Text, "//go:") {
+				groups = append(groups, g)
+				continue next
+			}
+		}
+	}
+	return
 }
 
 // nodeComments collects the comment groups attached to declarations.
